@@ -170,6 +170,14 @@ class Interp:
         return None
 
     def step(self, ins):
+        if 'dyncls' in ins:
+            # a unit class with a generated name (unit name = type(self).__name__), registered so that
+            # the library's own reader finds it
+            base = ugs.installed_ugens[ins['basecls']]
+            cls = type(ins['dyncls'], (base,), {})
+            ugs.installed_ugens[ins['dyncls']] = cls
+            ur = METH_RATE[ins['meth']]
+            return getattr(cls, ins['meth'])(*[self.arg(a, ur) for a in ins['args']])
         if 'cls' in ins:
             cls = ugs.installed_ugens[ins['cls']]
             meth = ins['meth']
@@ -327,6 +335,11 @@ def run_case(prog):
                 res['desc'] = canon_desc(SynthDesc.new_from(sd))
             except Exception as e:
                 res['desc_exc'] = ' <- '.join(exc_chain(e))
+            try:
+                res['defname'] = SynthDesc.def_name_from_bytes(bytearray(b))
+            except Exception as e:
+                res['defname'] = None
+                res['defname_exc'] = ' <- '.join(exc_chain(e))
             try:
                 if take_bytes(sd) != b:
                     res['desc_exc'] = 'as_bytes() is not stable'
